@@ -17,7 +17,7 @@ RULE = ('cases = corpus + generated templates covering every statement kind x 3 
         'copy(); non-trivial = accepted with >= 4 tokens; distinct by (dialect, token-type sequence)')
 ASSUMPTIONS = ['identical tree = equal reflective struct (class + all attributes incl. alias and parentheses)',
                'statements rejected on first parse are outside C01']
-BUDGET = {'quick': (12, 90), 'thorough': (16, 600)}
+BUDGET = {'quick': (16, 270), 'thorough': (16, 1800)}
 SIZES = {'quick': dict(n_templates=6000, n_mut=0, n_soup=0, n_noise=False, n_lexeme=9000),
          'thorough': dict(n_templates=60000, n_mut=0, n_soup=0, n_noise=False, n_lexeme=60000)}
 
